@@ -15,6 +15,26 @@ def run(chk):
     # which kind of token a character starts (and therefore where the token ends) is decided by the precedence of the scanner's branches
     from . import c16, mir
     c16.r16_dispatch(chk, mir.prog(), rule="R02-dispatch")
+    # uninterpreted IF_DATA: which value variant is built from which getter at which width (an integer read as u32 sends every
+    # negative value down the f32 path), and under which token kind
+    from . import c18, diag
+    diag.compare(chk, "R02-items", "ifdata", c18.items_table(mir.prog()), "values built by the IF_DATA parsers: variant, getter with its integer/float width, control predicates; compared with the reviewed table", floor=30,
+                 row_filter=lambda r: r[0].startswith("build "))
+    # every parsed element is stored with ItemList::push: a list that replaces or drops an element on push loses its tokens
+    from . import c13, common
+    from . import sym
+    from .common import Finding
+    sub = common.Check(chk.pid, chk.tier)
+    old = set(sym.TRANSPARENT_ADTS)
+    sym.TRANSPARENT_ADTS.clear()
+    try:
+        c13._run(sub, mir.prog())
+    finally:
+        sym.TRANSPARENT_ADTS.update(old)
+    for f in sub.findings:
+        if "::push" in f.key or "::extend" in f.key or "FromIterator" in f.key:
+            chk.add(Finding("R02-list", f.key.replace("R13-", "R02-list-"), "elements read from the file are stored through ItemList: " + f.msg, f.where, f.detail))
+    chk.rule("R02-list", "ItemList pairing rules (see C13) for the operations that store parsed elements", sum(r["instances"] for r in sub.rules), floor=50)
     chk.assumptions += ["not decided: token-sequence equality of output and input as such"]
 
 
